@@ -108,7 +108,7 @@ def run(res, rng, tier, model_ok, replay=None):
                                                pad=(rng.randint(0, 7), 1))
                 n = chunk_count(len(meta["body"]), threads, 8192)
                 cases.append({"line": line, "expect": exp, "klass": "production-%dKiB" % kb,
-                              "key": ("prod", kb, threads) if n >= 2 else None})
+                              "key": ("prod", kb, threads) if n >= 2 else None, "nomodel": kb > 256})
     vcdfam.run_both(res, cases, "c03", model_ok, timeout=1500)
     res.samples = [c["line"][:300] for c in cases[:2]] + [cases[-1]["line"][:200]]
 
